@@ -73,10 +73,21 @@ def _is_setter(fn):
 class Repo:
     """All modules of the package, with import / star-import resolution."""
 
-    def __init__(self, root=None, overlay=None):
+    def __init__(self, root=None, overlay=None, base=None):
         self.root = root or REPO
         self.overlay = overlay or {}
         self.modules: dict[str, Module] = {}
+        if base is not None:
+            # share the parsed modules of `base`, re-parse only the overlaid files (used by the self-test)
+            self.root = base.root
+            for name, m in base.modules.items():
+                if m.relpath in self.overlay:
+                    self.modules[name] = Module(name, m.path, self.overlay[m.relpath], m.is_pkg)
+                else:
+                    self.modules[name] = m
+            self._exports = {}
+            self._compute_exports()
+            return
         pkgdir = os.path.join(self.root, PKG)
         if not os.path.isdir(pkgdir):
             raise AnalysisError(f"package directory {pkgdir} not found")
